@@ -11,5 +11,6 @@ def run(ctx):
     ctx.rule = ("TLC-enumerated (Gen_C04): keys, candidate key strings, signature numbers, (key, note) pairs; distinct = "
                 "distinct (operation, arguments); non-trivial = the key has a non-empty signature or the candidate string is not a key")
     ctx.nontrivial = lambda r: r["in"].get("k") not in (["C"], ["a"]) if "k" in r["in"] else r["in"].get("i") != 0
+    cases.append({"kind": "fresh"})
     recs = ctx.execute("c04", cases, orders=2)
     ctx.validate("Trace_C04", recs, driver="c04")
